@@ -235,6 +235,9 @@ class BitStringPayloadDecoder(AbstractSimplePayloadDecoder):
                 if isinstance(component, SubstrateUnderrunError):
                     yield component
 
+            if not component:
+                raise error.PyAsn1Error('Empty BIT STRING fragment')
+
             trailingBits = oct2int(component[0])
             if trailingBits > 7:
                 raise error.PyAsn1Error(
@@ -280,6 +283,9 @@ class BitStringPayloadDecoder(AbstractSimplePayloadDecoder):
 
             if component is eoo.endOfOctets:
                 break
+
+            if not component:
+                raise error.PyAsn1Error('Empty BIT STRING fragment')
 
             trailingBits = oct2int(component[0])
             if trailingBits > 7:
